@@ -117,6 +117,7 @@ let hops_of_wop (kind : char) (arg : string) : hop list =
   | 's' | 'u' | 'f' -> [HWrite (unhex arg)]
   | 'l' -> [HWriteln (unhex arg)]
   | 'c' -> List.map (fun c -> HWrite c) (chars_of (unhex arg))
+  | 'g' -> [HWrite (lit_of (match unhex arg with b :: _ -> nat_of_int (int_of_n b) | [] -> O))]
   | 't' -> title_hops (unhex arg)
   | 'e' -> (match String.split_on_char '.' arg with
             | [a; b; c] -> list_element_hops (unhex a) (unhex b) (nat_of_int (int_of_string c))
